@@ -2386,6 +2386,14 @@ def BHJM_cylinder_segment(
     phio1 = phi
     phio2 = phi - np.sign(phi) * 2 * np.pi
 
+    # the comparisons below assume -2pi <= phi1 < phi2 <= 2pi: shift section angles
+    # given beyond that range (e.g. 300..420 deg) by full turns
+    turns = np.ceil(np.maximum(phi2 - 2 * np.pi, 0) / (2 * np.pi)) - np.ceil(
+        np.maximum(-2 * np.pi - phi1, 0) / (2 * np.pi)
+    )
+    phi1 = phi1 - 2 * np.pi * turns
+    phi2 = phi2 - 2 * np.pi * turns
+
     # phi=phi1, phi=phi2
     mask_phi1 = close(phio1, phi1) | close(phio2, phi1)
     mask_phi2 = close(phio1, phi2) | close(phio2, phi2)
